@@ -200,6 +200,11 @@ func genRuntime(r *simcore.Rand, e *progEnv) []byte {
 			} else if len(e.all) > 0 {
 				to = e.all[r.Intn(len(e.all))]
 				gas = uint64(r.Range(3, 60)) * 1000
+				if e.heavy {
+					// C28 nests messages under up to 600 wrapper frames: keep the program's own recursion far
+					// below 1024 - 600 frames (>= ~130 gas per frame => < 125 frames)
+					gas = uint64(r.Range(3, 16)) * 1000
+				}
 			} else {
 				to = e.anyAddr(r)
 			}
